@@ -499,10 +499,16 @@ def search_l0(rep):
 
 
 def verdict(rep):
-    known = [k for k in load_known() if k.get('property') == rep.pid and k.get('kind') == 'finding']
+    allknown = [k for k in load_known() if k.get('kind') == 'finding']
+    known = [k for k in allknown if k.get('property') == rep.pid]
+    foreign = [k for k in allknown if k.get('property') != rep.pid]
     new_fail, known_hits = [], {}
     for f in rep.failures:
         hit = next((k for k in known if match_known(k, f)), None)
+        if hit is None and any(match_known(k, f) for k in foreign):
+            # a listed finding of another property, seen by this property's generators: reported there, not here
+            rep.extra['failures_matching_known_findings_of_other_properties'] = rep.extra.get('failures_matching_known_findings_of_other_properties', 0) + 1
+            continue
         if hit is not None:
             known_hits.setdefault(hit['id'], (hit, 0))
             known_hits[hit['id']] = (hit, known_hits[hit['id']][1] + 1)
